@@ -331,3 +331,33 @@ def family_R(tier, seed, n=None):
         out.append({"id": "R/%d/%d" % (seed, t), "world": world, "ops": table_ops(fields, nrv if nr else [], calls=1),
                     "tags": tags_of(body, fields)})
     return out
+
+
+# ------------------------------------------------------------------------------------------
+# family D: duals - partial pins (one field pinned to each of its values, the others left to the
+# solver) so that both "ok => witness" and "SolveFailure => no extension exists" are exercised
+# ------------------------------------------------------------------------------------------
+def family_D(tier, seed, per_kind=None):
+    rnd = random.Random(8675)
+    out = []
+    per_kind = per_kind or (2 if tier == "quick" else 16)
+    for kind in S_KINDS:
+        for t in range(per_kind):
+            types = {n: rnd.choice(TYPES[1:5] + TYPES[4:6]) for n in "abc"}
+            fields = [fld("a", *types["a"]), fld("b", *types["b"]), fld("c", *types["c"], rand=rnd.random() < 0.6)]
+            names = ["a", "b", "c"]
+            body = [stmt_S(kind, rnd, names, types), stmt_S("rel", rnd, names, types)]
+            world = one_class_world(fields, body)
+            ops = [{"op": "construct", "o": "o1"}]
+            if not fields[2]["rand"]:
+                ops.append({"op": "set", "p": "o1.c", "v": bits(rnd.randrange(1 << types["c"][0]), types["c"][0])})
+            pin = rnd.choice(["a", "b"])
+            w, s = types[pin]
+            for v in range(1 << w):
+                sv = v - (1 << w) if (s and v >= (1 << (w - 1))) else v
+                ops.append({"op": "call", "call": wcall([E(B("eq", F(pin), lit(sv)))])})
+            ops.append({"op": "call", "call": wcall([E(B("ne", F("a"), F("a")))])})
+            ops.append({"op": "call", "call": wcall([E(B("and", B("lt", F("a"), F("b")), B("lt", F("b"), F("a"))))])})
+            ops.append({"op": "call", "call": mcall()})
+            out.append({"id": "D/%s/%d" % (kind, t), "world": world, "ops": ops, "tags": tags_of(body, fields)})
+    return out
